@@ -365,7 +365,7 @@ class Update(object):
 
                 elif type_code == bgp_cons.BGPTYPE_MP_REACH_NLRI:
                     decode_value = MpReachNLRI.parse(value=attr_value, afi_add_path=afi_add_path)
-                    if decode_value['nlri'][0] and type(decode_value['nlri'][0]) is dict:
+                    if decode_value['nlri'] and type(decode_value['nlri'][0]) is dict:
                         if decode_value['nlri'][0].get("protocol_id"):
                             bgpls_pro_id = decode_value['nlri'][0]["protocol_id"]
 
